@@ -338,12 +338,17 @@ func exec(ops []string, o *vu.Out) {
 			}
 			var got bool
 			o.Op(op, vu.Catch(func() string { got = httpguts.HeaderValuesContainsToken(vals, tok); return okb(got) }))
-			want := refContains(vals, tok, false)
+			// The statement read literally ("All strings"): equality after ASCII case folding.
+			want := refContains(vals, tok, true)
 			if got != want {
-				o.Fail("", fmt.Sprintf("HeaderValuesContainsToken(%q,%q)=%v, split/trim/fold reference says %v", vals, tok, got, want))
-			}
-			if !isASCII(tok) && refContains(vals, tok, true) {
-				o.Stat("contains:non-ascii-token-present-but-never-matched")
+				if !isASCII(tok) && want && !got && got == refContains(vals, tok, false) {
+					// known finding: tokenEqual gives up at the first byte >= 0x80
+					// ("No UTF-8 or non-ASCII allowed in tokens"), so a non-ASCII "token" never matches.
+					o.Fail("C55:non-ascii-token-never-matches", fmt.Sprintf("HeaderValuesContainsToken(%q,%q)=false although an element equals the token", vals, tok))
+					o.Stat("contains:non-ascii-token-present-but-never-matched")
+				} else {
+					o.Fail("", fmt.Sprintf("HeaderValuesContainsToken(%q,%q)=%v, split/trim/fold reference says %v", vals, tok, got, want))
+				}
 			}
 			o.Stat(fmt.Sprintf("contains:%v", got))
 		default:
